@@ -157,10 +157,62 @@ package types
 //@   abstract
 //@ func (*V2Transaction).ID
 //@   abstract
+//@   prop C12 C03
+//@   ghost k int
+//@   requires @resolutions-non-nil forall j in 0..len(txn.FileContractResolutions) :: !isnil(txn.FileContractResolutions[j].Resolution)
+//@   preimage prefix "sia/id/transaction|"
+//@   preimage covers len(txn.SiacoinInputs)
+//@   preimage covers txn.SiacoinInputs[k].Parent.ID when 0 <= k && k < len(txn.SiacoinInputs)
+//@   preimage covers len(txn.SiacoinOutputs)
+//@   preimage covers txn.SiacoinOutputs[k] when 0 <= k && k < len(txn.SiacoinOutputs)
+//@   preimage covers len(txn.SiafundInputs)
+//@   preimage covers txn.SiafundInputs[k].Parent.ID when 0 <= k && k < len(txn.SiafundInputs)
+//@   preimage covers txn.SiafundInputs[k].ClaimAddress when 0 <= k && k < len(txn.SiafundInputs)
+//@   preimage covers len(txn.SiafundOutputs)
+//@   preimage covers txn.SiafundOutputs[k] when 0 <= k && k < len(txn.SiafundOutputs)
+//@   preimage covers len(txn.FileContracts)
+//@   preimage covers txn.FileContracts[k] except RenterSignature HostSignature when 0 <= k && k < len(txn.FileContracts)
+//@   preimage covers len(txn.FileContractRevisions)
+//@   preimage covers txn.FileContractRevisions[k].Parent.ID when 0 <= k && k < len(txn.FileContractRevisions)
+//@   preimage covers txn.FileContractRevisions[k].Revision except RenterSignature HostSignature when 0 <= k && k < len(txn.FileContractRevisions)
+//@   preimage covers len(txn.FileContractResolutions)
+//@   preimage covers txn.FileContractResolutions[k].Parent.ID when 0 <= k && k < len(txn.FileContractResolutions)
+//@   preimage covers asa(txn.FileContractResolutions[k].Resolution, V2FileContractRenewal) except RenterSignature HostSignature NewContract.RenterSignature NewContract.HostSignature when 0 <= k && k < len(txn.FileContractResolutions) && isa(txn.FileContractResolutions[k].Resolution, V2FileContractRenewal)
+//@   preimage covers asa(txn.FileContractResolutions[k].Resolution, V2StorageProof) except ProofIndex.StateElement.MerkleProof when 0 <= k && k < len(txn.FileContractResolutions) && isa(txn.FileContractResolutions[k].Resolution, V2StorageProof)
+//@   preimage covers len(txn.Attestations)
+//@   preimage covers txn.Attestations[k] when 0 <= k && k < len(txn.Attestations)
+//@   preimage covers txn.ArbitraryData
+//@   preimage covers txn.NewFoundationAddress
+//@   preimage covers txn.MinerFee
+//@   preimage excludes txn.SiacoinInputs[k].SatisfiedPolicy when 0 <= k && k < len(txn.SiacoinInputs)
+//@   preimage excludes txn.SiacoinInputs[k].Parent.StateElement when 0 <= k && k < len(txn.SiacoinInputs)
+//@   preimage excludes txn.SiacoinInputs[k].Parent.SiacoinOutput when 0 <= k && k < len(txn.SiacoinInputs)
+//@   preimage excludes txn.SiacoinInputs[k].Parent.MaturityHeight when 0 <= k && k < len(txn.SiacoinInputs)
+//@   preimage excludes txn.SiafundInputs[k].SatisfiedPolicy when 0 <= k && k < len(txn.SiafundInputs)
+//@   preimage excludes txn.SiafundInputs[k].Parent.StateElement when 0 <= k && k < len(txn.SiafundInputs)
+//@   preimage excludes txn.SiafundInputs[k].Parent.SiafundOutput when 0 <= k && k < len(txn.SiafundInputs)
+//@   preimage excludes txn.SiafundInputs[k].Parent.ClaimStart when 0 <= k && k < len(txn.SiafundInputs)
+//@   preimage excludes txn.FileContracts[k].RenterSignature when 0 <= k && k < len(txn.FileContracts)
+//@   preimage excludes txn.FileContracts[k].HostSignature when 0 <= k && k < len(txn.FileContracts)
+//@   preimage excludes txn.FileContractRevisions[k].Revision.RenterSignature when 0 <= k && k < len(txn.FileContractRevisions)
+//@   preimage excludes txn.FileContractRevisions[k].Revision.HostSignature when 0 <= k && k < len(txn.FileContractRevisions)
+//@   preimage excludes txn.FileContractRevisions[k].Parent.StateElement when 0 <= k && k < len(txn.FileContractRevisions)
+//@   preimage excludes txn.FileContractRevisions[k].Parent.V2FileContract when 0 <= k && k < len(txn.FileContractRevisions)
+//@   preimage excludes txn.FileContractResolutions[k].Parent.StateElement when 0 <= k && k < len(txn.FileContractResolutions)
+//@   preimage excludes txn.FileContractResolutions[k].Parent.V2FileContract when 0 <= k && k < len(txn.FileContractResolutions)
+//@   preimage excludes asa(txn.FileContractResolutions[k].Resolution, V2FileContractRenewal).RenterSignature when 0 <= k && k < len(txn.FileContractResolutions)
+//@   preimage excludes asa(txn.FileContractResolutions[k].Resolution, V2FileContractRenewal).HostSignature when 0 <= k && k < len(txn.FileContractResolutions)
+//@   preimage excludes asa(txn.FileContractResolutions[k].Resolution, V2FileContractRenewal).NewContract.RenterSignature when 0 <= k && k < len(txn.FileContractResolutions)
+//@   preimage excludes asa(txn.FileContractResolutions[k].Resolution, V2FileContractRenewal).NewContract.HostSignature when 0 <= k && k < len(txn.FileContractResolutions)
+//@   preimage excludes asa(txn.FileContractResolutions[k].Resolution, V2StorageProof).ProofIndex.StateElement.MerkleProof when 0 <= k && k < len(txn.FileContractResolutions)
 //@ func (*V2Transaction).FullHash
 //@   abstract
 //@ func (*V2Transaction).SiacoinOutputID
 //@   abstract
+//@   prop C12
+//@   preimage prefix "sia/id/siacoinoutput|"
+//@   preimage covers i
+//@   preimage covers txid
 //@ func (*V2Transaction).SiafundOutputID
 //@   abstract
 //@ func (*V2Transaction).V2FileContractID
